@@ -80,7 +80,8 @@ class Obligation:
     kind: str
     func: str
     info: str = ""
-    expect: str = "valid"   # "valid": pc => goal must hold;  "sat": pc /\ goal must be satisfiable (cover)
+    expect: str = "valid"
+    tags: tuple = ()   # "valid": pc => goal must hold;  "sat": pc /\ goal must be satisfiable (cover)
 
 
 class State:
@@ -471,11 +472,15 @@ class Engine:
         raise CheckerError(f"truthiness of {v.t} not modelled")
 
     # ================================================================== obligations
-    def oblige(self, fr: Frame, st: State, kind: str, label: str, goal, info: str = "", expect="valid"):
+    def oblige(self, fr: Frame, st: State, kind: str, label: str, goal, info: str = "", expect="valid", tags=None):
         if self.dry or not fr.verify:
             return
-        name = f"{short(fr.qname)}:{kind}:{label}" if label else f"{short(fr.qname)}:{kind}"
-        self.obligations.append(Obligation(name, list(st.pc), goal, kind, fr.qname, info, expect))
+        vq = getattr(self, "verifying", None) or fr.qname
+        name = f"{short(vq)}:{kind}:{label}" if label else f"{short(vq)}:{kind}"
+        if tags is None:
+            c = self.spec.fns.get(vq)
+            tags = tuple(c.owners) if c is not None else ()
+        self.obligations.append(Obligation(name, list(st.pc), goal, kind, vq, info, expect, tuple(tags)))
 
     def raise_edge(self, fr: Frame, st: State, cond, exc: str, where: str):
         """Fork an exceptional edge taken when `cond` holds; the normal path continues with not cond."""
@@ -1513,6 +1518,13 @@ class Engine:
             return self.ex_block(s.body, st, fr)
         if z3.is_false(c):
             return self.ex_block(s.orelse, st, fr) if s.orelse else [Outcome("ok", st)]
+        # branches refuted by the plain path condition are not explored (sound: only provably dead code is skipped)
+        if self.quick_infeasible(st, c):
+            st.assume(z3.Not(c))
+            return self.ex_block(s.orelse, st, fr) if s.orelse else [Outcome("ok", st)]
+        if self.quick_infeasible(st, z3.Not(c)):
+            st.assume(c)
+            return self.ex_block(s.body, st, fr)
         a = st.copy(); a.assume(c)
         b = st; b.assume(z3.Not(c))
         outs = self.ex_block(s.body, a, fr)
